@@ -50,7 +50,7 @@ pub fn convex_hull(poly: &[PointF]) -> Vec<PointF> {
 
     // Visit sorted points and keep the sequence that can be followed without
     // making any clockwise turns.
-    for &(p, _) in sorted_points.iter() {
+    'points: for &(p, _) in sorted_points.iter() {
         while hull.len() >= 2 {
             let [prev2, prev] = [hull[hull.len() - 2], hull[hull.len() - 1]];
             let ac = prev2.vec_to(p);
@@ -59,6 +59,13 @@ pub fn convex_hull(poly: &[PointF]) -> Vec<PointF> {
             if turn_dir > 0. {
                 // Last three points form a counter-clockwise turn.
                 break;
+            }
+            if turn_dir == 0. && ac.dot(bc) < 0. {
+                // `p` lies on the segment between the last two hull points, so
+                // it is not a hull vertex. This happens when the computed
+                // angles of collinear points differ by a rounding error and
+                // the points are therefore not sorted by distance.
+                continue 'points;
             }
             hull.pop();
         }
